@@ -76,7 +76,8 @@ pub struct Reflex {
     pub confirm: HashMap<u16, u64>,
     pub_remaining: HashMap<u16, Option<u64>>,
     pub publishes_completed: u64,
-    pub get_answers: HashMap<u16, VecDeque<Option<Msg>>>,
+    /// Answers to Basic.Get per channel: None = GetEmpty, Some((msg, body partition)).
+    pub get_answers: HashMap<u16, VecDeque<Option<(Msg, Option<Vec<usize>>)>>>,
     pub consumer_tags: Vec<(u16, String)>,
     pub got_conn_close: bool,
     pub got_conn_close_ok: bool,
@@ -595,8 +596,8 @@ impl Reflex {
                             cluster_id: String::new(),
                         })),
                     )],
-                    Some(m) => {
-                        let part = even_partition(m.body.len(), self.content_chunk);
+                    Some((m, part)) => {
+                        let part = part.unwrap_or_else(|| even_partition(m.body.len(), self.content_chunk));
                         get_ok_frames(ch, &m, &part)
                     }
                 };
